@@ -109,6 +109,18 @@ def cases(tier, seed, shard, nshards):
     n = tier_pick(tier, 96000, 5000000) // nshards
     for i in range(n):
         c = {"lib": rand_library(r), "fmt": rand_format(r)}
+        if i % 9 == 0:
+            # texts the WRITER ITSELF produces, as content of the blocks around a failed block (seed C06-m: a failed block behind an
+            # implicit comment equal to its own warning line was written without the warning): what a re-read output looks like
+            fc = c["fmt"][4] if c["fmt"][4] is not None else "% WARNING Parsing failed for the following {n} lines."
+            lib2 = []
+            for s_ in c["lib"]:
+                if s_[0] in ("failed", "dupkey", "dupfield"):
+                    raw = s_[1] if s_[0] == "failed" else s_[2][4]
+                    n_ = len(raw.splitlines()) + r.choice([0, 0, 0, 1])
+                    lib2.append([r.choice(["icomment", "icomment", "ecomment", "preamble"]), fc.replace("{n}", str(n_)) + r.choice(["", "", "\n", " "])])
+                lib2.append(s_)
+            c["lib"] = lib2
         if i % 5 == 0 and 1 <= len(c["lib"]) <= 8:
             c["hist"] = rand_history(r, c["lib"])
             if i % 10 == 0:
